@@ -7,7 +7,7 @@ import os
 import sys
 
 from oracles import ref_split
-from .common import bootstrap, fresh_dir
+from .common import ProcProtocol, bootstrap, fresh_dir
 
 ALPHABET = ["a", " ", "\t", "'", '"', "\\", "$", ";", "=", "-"]
 JOBNAMES = ["j0", "name-with.dots_1", "7"]
@@ -46,7 +46,7 @@ def k_launch_split(max_len=4, alphabet=None):
         configured = job.command
         calls = []
 
-        class P:
+        class P(ProcProtocol):
             pid = 77
             returncode = None
 
@@ -123,7 +123,7 @@ def k_launch_rc():
         pipes = {}
         rc = {}
 
-        class P:
+        class P(ProcProtocol):
             def __init__(self, name):
                 self.name, self.returncode, self.pid = name, None, 100 + len(pipes)
 
@@ -249,7 +249,7 @@ def k_launch_nonmanager():
         manager = ex.flag("manager_node")
         cancel = ex.flag("canceled")
 
-        class P:
+        class P(ProcProtocol):
             pid = 5
             returncode = None
 
